@@ -94,6 +94,23 @@ def b_len(vm, args, kwargs, ctx):
 
 
 def _minmax(vm, args, kwargs, is_max):
+    if len(args) == 1 and kwargs.get('key') is not None and isinstance(args[0], I.GenCall) and not isinstance(args[0], SSeq):
+        s = vm.gencall_as_sseq(args[0])
+        if s is not None:
+            args = [s]
+    if len(args) == 1 and kwargs.get('key') is not None and isinstance(args[0], SSeq):
+        # max(seq, key=f) over a sequence of symbolic length: some element whose key no other element's key exceeds
+        # (CPython returns the first such; which one is left open, so every choice is covered)
+        seq, key = args[0], kwargs['key']
+        n = seq.length
+        vm.oblige('noexc.ValueError:%s-of-empty' % ('max' if is_max else 'min'), n > 0, 'noexc', vm.cur_line)
+        vm.assume(n > 0)
+        w, j = vm.fresh('w'), vm.fresh('j')
+        vm.assume(z3.And(0 <= w, w < n))
+        kw = vm.under(z3.BoolVal(True), lambda: vm.as_int(vm.call(key, [seq.elem(w)], {})))
+        kj = vm.under(z3.And(0 <= j, j < n), lambda: vm.as_int(vm.call(key, [seq.elem(j)], {})))
+        vm.assume(z3.ForAll([j], z3.Implies(z3.And(0 <= j, j < n), (kj <= kw) if is_max else (kj >= kw)), patterns=_patterns(kj, j)))
+        return seq.elem(w)
     if len(args) == 1:
         src = sym_fold_source(vm, args[0])
         if src:
